@@ -420,3 +420,18 @@ Print Assumptions C01_machine_step_refines_spec.
 Theorem C02_machine_step_refines_spec : forall (I P : Type) (keq : I -> I -> bool) (hash : I -> N) (ple : P -> P -> bool) (peq : P -> P -> bool) (alloc_limit : N), machine_step_refines_stmt keq hash ple peq alloc_limit.
 Proof. intros; apply @RefineMachine.machine_step_refines_thm. Qed.
 Print Assumptions C02_machine_step_refines_spec.
+
+(* C03 *)
+Theorem C03_machine_run_refines_map : forall (I P : Type) (keq : I -> I -> bool) (hash : I -> N) (ple : P -> P -> bool) (peq : P -> P -> bool) (alloc_limit : N), machine_run_refines_stmt keq hash ple peq alloc_limit.
+Proof. intros; apply @RefineMachine.machine_run_refines_thm. Qed.
+Print Assumptions C03_machine_run_refines_map.
+
+(* C01 *)
+Theorem C01_machine_run_refines_spec : forall (I P : Type) (keq : I -> I -> bool) (hash : I -> N) (ple : P -> P -> bool) (peq : P -> P -> bool) (alloc_limit : N), machine_run_refines_stmt keq hash ple peq alloc_limit.
+Proof. intros; apply @RefineMachine.machine_run_refines_thm. Qed.
+Print Assumptions C01_machine_run_refines_spec.
+
+(* C02 *)
+Theorem C02_machine_run_refines_spec : forall (I P : Type) (keq : I -> I -> bool) (hash : I -> N) (ple : P -> P -> bool) (peq : P -> P -> bool) (alloc_limit : N), machine_run_refines_stmt keq hash ple peq alloc_limit.
+Proof. intros; apply @RefineMachine.machine_run_refines_thm. Qed.
+Print Assumptions C02_machine_run_refines_spec.
